@@ -20,7 +20,7 @@ class Prof:
     implies: bool = True
     app: bool = True
     metavars: int = 0  # metavariable ids 0..metavars-1
-    # constraint configurations for a metavariable: tuples (ne, ns, npos, nneg)
+    # constraint configurations for a metavariable: tuples (ne, ns, npos, nneg[, nctx])
     mv_cfgs: tuple = ((0, 0, 0, 0),)
     subst: bool = False  # ESubst / SSubst nodes over metavariables
     notations: tuple = ()  # live Notation objects (any arity)
@@ -116,7 +116,9 @@ def gen(ctx: Any, n: int, prof: Prof, meta_only: bool = False) -> Any:
     if k == 'sym':
         return P.Symbol(o[1])
     if k == 'mv':
-        ne, ns, npos, nneg = o[2]
+        ne, ns, npos, nneg, *_ctx = o[2]
+        nctx = _ctx[0] if _ctx else 0  # optional fifth component: number of app_ctx_holes
+        holes = tuple(P.EVar(ctx.int('cx', 0, prof.id_hi)) for _ in range(nctx))
         if prof.mv_shared:
             # one constraint annotation per metavariable id on a path
             cache = getattr(ctx, '_mvcache', None)
@@ -131,6 +133,7 @@ def gen(ctx: Any, n: int, prof: Prof, meta_only: bool = False) -> Any:
                 tuple(P.SVar(ctx.int('cs', 0, prof.id_hi)) for _ in range(ns)),
                 tuple(P.SVar(ctx.int('cp', 0, prof.id_hi)) for _ in range(npos)),
                 tuple(P.SVar(ctx.int('cn', 0, prof.id_hi)) for _ in range(nneg)),
+                holes,
             )
             cache[1][o[1]] = mvn
             return mvn
@@ -140,6 +143,7 @@ def gen(ctx: Any, n: int, prof: Prof, meta_only: bool = False) -> Any:
             tuple(P.SVar(ctx.int('cs', 0, prof.id_hi)) for _ in range(ns)),
             tuple(P.SVar(ctx.int('cp', 0, prof.id_hi)) for _ in range(npos)),
             tuple(P.SVar(ctx.int('cn', 0, prof.id_hi)) for _ in range(nneg)),
+            holes,
         )
     if k == 'ex':
         return P.Exists(ctx.int('be', 0, prof.id_hi), gen(ctx, n - 1, prof))
